@@ -499,3 +499,48 @@ PLANS['C10'] = dict(
          'executed; non-trivial: program with at least one step ending in an exception; distinct = distinct programs.',
     assumptions=['exception messages and reprs are not compared, only types', 'same PYTHONHASHSEED in both processes'],
 )
+
+
+# Floors for the monitors added in the audit session (measured quick-tier values are 5-100 times higher; a monitor that
+# is silently no longer reached makes the run inconclusive instead of green)
+EXTRA_FLOORS = {
+    'C01': {'checks_asking_objects_before_classes': 5000, 'class_level_alsoProvides': 200, 'classes_built_on_a_builtin_type': 500,
+            'declarations_during_which_a_new_dependent_appeared': 100},
+    'C02': {'interfaces_with_a_hash_of_their_own': 500, 'assignments_overtaken_by_a_nested_assignment': 50,
+            'assignments_during_which_a_new_dependent_appeared': 100, 'assignments_with_a_base_listed_twice': 20},
+    'C05': {'lookups_with_a_tuple_subclass_of_coarser_equality': 10000, 'probes_with_required_in_swapped_order': 5000,
+            'watched_specifications_that_died': 1000},
+    'C06': {'first_call_after_a_change[lookupAll]': 3000, 'first_call_after_a_change[subscriptions]': 3000,
+            'rebasings_with_a_failing_generation_read[raised]': 300, 'rebuilt_base_probes': 1000,
+            'components_bases_given_as_one_shot_iterable': 500},
+    'C07': {'one_object_subscribed_under_several_keys': 1000, 'results_with_one_object_under_several_keys': 100, 'rebuilt_base_probes': 1000},
+    'C08': {'adapter_call_forms[1]': 10000, 'adapter_call_forms[2]': 10000, 'adapter_call_forms[3]': 10000, 'rebuilt_base_probes': 1000},
+    'C09': {'identical_reregistrations': 1000, 'unregistrations_with_a_cleaning_finalizer': 1000,
+            'unregistrations_of_an_absent_entry_next_to_an_existing_one': 500, 'rebuilt_base_probes': 1000,
+            'required_given_as_a_one_shot_iterable': 3000},
+    'C10': {'final_steps_compared': 60},
+    'C12': {'interfaces_without_module': 300, 'comparisons_with_a_meddling_name': 3000, 'comparisons_after_a_rename': 1000,
+            'interfaces_with_names_of_a_str_subclass': 500, 'foreign_pairs_with_name_and_module': 10000,
+            'foreign_pairs_with_their_own_comparison': 500},
+    'C13': {'roundtrips[class-provides-under-a-declaring-metaclass]': 500, 'declarations_on_a_named_class_after_pickling': 50,
+            'roundtrips[after-interrupted-declaration]': 500, 'roundtrips[shipped-interface]': 100, 'roundtrips[empty]': 500},
+    'C14': {'value_style[1]': 2000, 'value_style[2]': 2000, 'value_style[3]': 2000, 'value_style[4]': 2000, 'registry_hook_rebasings': 100,
+            'registry_hook_kept_across_rebuild': 4, 'exception_kind_from_hooks_and_adapt[AttributeError]': 2000,
+            'exception_kind_from_hooks_and_adapt[TypeError]': 2000},
+    'C15': {'definitions_added_after_the_first_query': 500},
+    'C16': {'volatile_state_dropped[copy]': 300, 'volatile_state_dropped[dropcache]': 500, 'refused_calls': 1000,
+            'damaged_utility_registries_reported_and_repaired[subscription]': 200,
+            'damaged_utility_registries_reported_and_repaired[registration]': 200, 'repair_checks_with_a_comparison_fault[raised]': 500,
+            'subscription_adapter_forms[inferred]': 500, 'handler_forms[inferred]': 300},
+    'C17': {'multi_rebase_interrupted_by_a_raising_dependent': 50, 'multi_reverified_after_reinitialised_ancestor': 20, 'special_cases': 50},
+    'C18': {'descriptions_rendered_by_two_threads_at_once': 1},
+    'C19': {'super_resolution_orders_compared': 50000, 'super_queries_with_nothing_left_of_the_mro': 20000,
+            'super_queries_right_after_an_interrupted_declaration': 30},
+    'C20': {'class_spec_lists_after_further_declarations[classImplements]': 1000,
+            'class_spec_lists_after_further_declarations[classImplementsFirst]': 500,
+            'class_spec_lists_after_further_declarations[classImplementsOnly]': 500, 'declarations_from_proxied_interfaces': 3000,
+            'declarations_built_from_what_an_object_provides': 1000, 'results_of_operations_on_a_live_class_specification': 1000},
+}
+for _p, _f in EXTRA_FLOORS.items():
+    _old = PLANS[_p].get('minimums', lambda t: {})
+    PLANS[_p]['minimums'] = (lambda old, extra: (lambda t: dict(old(t), **extra)))(_old, _f)
